@@ -72,6 +72,19 @@ func VerifC13Traversal() {
 		}
 	}
 	p := c13Project(edges, 0)
+	// a project built by hand: the Name field of a service is unset, or differs from the key it is stored under
+	switch vrtChoice("serviceNameField", vrtParam("NAMES", 1)) {
+	case 1:
+		for k, s := range p.Services {
+			s.Name = ""
+			p.Services[k] = s
+		}
+	case 2:
+		for k, s := range p.Services {
+			s.Name = "svc-" + k
+			p.Services[k] = s
+		}
+	}
 	if vrtParam("DANGLING", 0) == 1 {
 		c13Dangling(p, vrtChoice("dangling", 4))
 		vrtMapOrder([]int{0, 3, 4}[vrtChoice("maporder", 3)])
